@@ -47,7 +47,8 @@ def _inv_decisions(it, fr, ctx):
     """for early_stopping_decision in early_stopping_decisions.decisions"""
     run = it.run
     if ctx.phase == 'init':
-        run.es = {'D0loop': dict(run.ghost), 'outer': parse(E.to_z3(fr.env['outer_op_name']))}
+        k0 = parse(E.to_z3(run.req.get('trial_name')))
+        run.es = {'D0loop': dict(run.ghost), 'outer': Name.eop(Name.o2(k0), Name.s2(k0), Name.t2(k0))}
     Dl, ok = run.es['D0loop'], run.es['outer']
     k = z3.Const('k!ies', Name)
     De = run.ghost['D.eop']
